@@ -165,7 +165,7 @@ class C06(CheckBase):
             payload = bytes([cyl, head, r]) + rng.bytes(253)
             # some sectors are legally recorded with another data mark (deleted data F8, or F9/FA):
             # the decoders yield data sectors only, so these must never be returned
-            mark = 0xFB if not case.get('altmarks') or rng.chance(0.75) else rng.choice([0xF8, 0xF8, 0xF9, 0xFA])
+            mark = 0xFB if not case.get('altmarks') or rng.chance(0.75) else rng.choice([0xF8, 0xF8, 0xF9, 0xFA, -1, -1])     # -1: ID field with no data field behind it
             secs.append((r, payload, mark))
         forged = {}
         if case.get('forge'):
@@ -175,6 +175,8 @@ class C06(CheckBase):
             for _ in range(frng.randint(1, 2)):
                 i = frng.below(len(secs))
                 r, payload, mark = secs[i][:3]
+                if mark == -1:
+                    continue      # no data field to carry a checksum
                 alts = flux.wrong_crcs(enc, mark, payload)
                 how = frng.choice(sorted(alts))
                 secs[i] = (r, payload, mark, None, alts[how])
@@ -184,6 +186,7 @@ class C06(CheckBase):
         recorded = {t[0]: t[1] for t in secs if t[2] == 0xFB and t[0] not in forged}
         by_payload = {t[1]: t[0] for t in secs}
         nonfb = sum(1 for t in secs if t[2] != 0xFB)
+        nodata = set(t[0] for t in secs if t[2] == -1)
         if nonfb:
             out.probe('tracks-with-non-FB-data-marks')
         drng = Rng.derive(case['damage_seed'], 'damage')
@@ -224,6 +227,14 @@ class C06(CheckBase):
                     out.violate('C06.e', '%s: sector %s was recorded with a deleted/other data mark but was yielded as a data sector' % (what, addr), dict(desc, what='non-data-mark'), atom)
                     continue
                 if (s['c'], s['h']) != (cyl, head) or s['r'] not in recorded:
+                    if (s['c'], s['h']) == (cyl, head) and s['r'] in nodata:
+                        # an ID field without a data field, and the ID of the sector physically behind it is what the
+                        # damage hit: all a decoder can see is a good ID followed, within the legal distance, by a good
+                        # data field.  Two faults at once; no reader can tell, so none is blamed
+                        nxt = order[(order.index(s['r']) + 1) % len(order)]
+                        if any(o.get('rec') == nxt and o['region'] in ('sync', 'idmark', 'id', 'idcrc') for o in ops):
+                            out.probe('data-less-id-followed-by-damaged-id(unavoidable-pairing)')
+                            continue
                     if case['class'] == 'G':
                         verdict = 'bad-address'
                         out.violate('C06.b', '%s: yielded a sector with address %s, which is not recorded on this track' % (what, addr), dict(desc, what='address'), atom)
